@@ -1,9 +1,8 @@
 import AlatorVerif.Model.PerfFull
+import AlatorVerif.Driver.Util
 namespace Drv.Perf
-open PP
+open PP Drv
 
-def f64 (s : String) : Float := Float.ofBits (s.toNat!.toUInt64)
-def bits (x : Float) : String := if x == 0.0 then "0" else toString x.toBits.toNat
 instance : NatCast Float := ⟨Float.ofNat⟩
 
 def parseSnaps : Nat → List String → List (Snap Float)
@@ -11,24 +10,21 @@ def parseSnaps : Nat → List String → List (Snap Float)
   | n + 1, d :: v :: c :: i :: rest => ⟨d.toInt!, f64 v, f64 c, f64 i⟩ :: parseSnaps n rest
   | _, _ => []
 
-def lst (l : List Float) : String := " ".intercalate (l.map bits)
+def lst (l : List Float) : String := s!"{l.length} {joinSp (l.map fb)}"
 
-def stepLine (fixed : Bool) (line : String) : String :=
-  match (line.trimAscii.toString.splitOn " ").filter (fun t => t != "") with
+def step (fixed : Bool) (_ : Unit) (ts : List String) : Unit × String :=
+  match ts with
   | "CALC" :: n :: rest =>
     match calculate fixed (parseSnaps n.toNat! rest) with
-    | none => "PANIC"
+    | none => ((), "PANIC")
     | some o =>
-      let ds := " ".intercalate (o.dates.map toString)
-      s!"{bits o.ret} {bits o.cagr} {bits o.vol} {bits o.mdd} {bits o.sharpe} {o.ddStart} {o.ddEnd} {bits o.best} {bits o.worst} ; {lst o.values} ; {lst o.returns} ; {ds} ; {lst o.cashFlows}"
-  | _ => "bad-op"
+      let ds := joinSp (o.dates.map toString)
+      let fd := o.dates.headD 0
+      let ld := o.dates.getLastD 0
+      ((), s!"R {fb o.ret} {fb o.cagr} {fb o.vol} {fb o.sharpe} ; DD {fb o.mdd} {o.ddStart} {o.ddEnd} ; BW {fb o.best} {fb o.worst} ; VAL {lst o.values} ; RET {lst o.returns} ; DAT {o.dates.length} {ds} ; CF {lst o.cashFlows} ; FL {fd} {ld}")
+  | _ => ((), "bad-op")
 
-partial def loop (h : IO.FS.Stream) (fixed : Bool) : IO Unit := do
-  let line ← h.getLine
-  if line.isEmpty then return ()
-  IO.println (stepLine fixed line)
-  loop h fixed
-
-def main (args : List String) : IO Unit := do loop (← IO.getStdin) (args.contains "repaired")
+def main (args : List String) : IO Unit := do
+  loopWith (← IO.getStdin) () (step (!args.contains "pinned-F7")) ()
 
 end Drv.Perf
